@@ -3,7 +3,10 @@
 //	TestPropExpiredShardGroups   pure, exact to the nanosecond: RetentionPolicyInfo.ExpiredShardGroups(t)
 //	                             over generated layouts and check instants at end+duration -1/0/+1 ns
 //	TestPropDeletionCheck        retention.Service.DeletionCheck wired like storage.Engine wires it
-//	                             (real meta.Client, OSSDropShardMetaRef) with a recording TSDBStore
+//	                             (real meta.Client, OSSDropShardMetaRef) with a recording TSDBStore;
+//	                             histories of 1..4 checks, tombstones younger / older than the
+//	                             two-week tombstone lifetime (so PruneShardGroups really prunes),
+//	                             and every policy must afterwards list only its own groups
 //	TestPropDeletionCheckOnDisk  the same service on the real storage.Engine / tsdb.Store with shards
 //	                             written through Engine.WritePoints (retention shortened afterwards)
 //	TestPropRetentionDrop        PointsWriter.MapShards / WritePointsPrivileged drop accounting
@@ -49,7 +52,7 @@ const (
 
 var rec = ev.For(propID, "exploration",
 	"pure: case = (retention period, 0..8 groups with deleted/truncated flags, check instant); non-trivial = layout with >=1 expired, >=1 unexpired and >=1 already-deleted group; "+
-		"service: case = 1..2 databases x 1..2 policies with 0..6 groups placed around now-retention, some already deleted, shards present/phantom/in use; non-trivial = same rule over the whole layout; "+
+		"service: case = 1..2 databases x 1..2 policies with 0..6 groups placed around now-retention, some already deleted (tombstone younger or older than the 2-week tombstone lifetime), shards present/phantom/in use, 1..4 checks with tombstones optionally aged by two weeks in between; non-trivial = same rule over the whole layout; "+
 		"writes: case = retention period + batch of point ages; non-trivial = batch mixing droppable and acceptable points; distinct by canonical rendering in relative times")
 
 const (
@@ -297,7 +300,32 @@ type planGroup struct {
 	End        time.Time
 	Dur        time.Duration
 	PreDeleted bool
-	AgeSlots   int // for the canonical rendering
+	Aged       bool // pre-deleted more than ShardGroupDeletedExpiration ago: the tombstone is prunable
+	AgeSlots   int  // for the canonical rendering
+}
+
+// ageTombstones moves DeletedAt of tombstoned groups (all of them, or only the listed ids) back
+// by a little more than the tombstone lifetime: the metadata then looks as it does when the group
+// was deleted more than two weeks before the next retention check, so that check's
+// PruneShardGroups removes the tombstone once its shards are gone. Only DeletedAt changes.
+func ageTombstones(mc *meta.Client, only map[uint64]bool) (int, error) {
+	d := mc.Data()
+	n := 0
+	for i := range d.Databases {
+		for j := range d.Databases[i].RetentionPolicies {
+			sgs := d.Databases[i].RetentionPolicies[j].ShardGroups
+			for k := range sgs {
+				if sgs[k].Deleted() && (only == nil || only[sgs[k].ID]) {
+					sgs[k].DeletedAt = sgs[k].DeletedAt.Add(meta.ShardGroupDeletedExpiration - time.Hour)
+					n++
+				}
+			}
+		}
+	}
+	if n == 0 {
+		return 0, nil
+	}
+	return n, mc.SetData(&d)
 }
 
 func newService(mc *meta.Client, store interface {
@@ -337,6 +365,9 @@ func TestPropDeletionCheck(t *testing.T) {
 		now := time.Now()
 		var plan []planGroup
 		var canon []string
+		type polKey struct{ db, rp string }
+		var policies []polKey
+		preAged := map[uint64]bool{}
 		nDB := rapid.IntRange(1, 2).Draw(t, "databases")
 		for di := 0; di < nDB; di++ {
 			db := fmt.Sprintf("db%d", di)
@@ -360,6 +391,7 @@ func TestPropDeletionCheck(t *testing.T) {
 					t.Fatalf("harness: create %s/%s retention=%v sgd=%v: %v", db, rp, dur, sgd, err)
 				}
 				canon = append(canon, fmt.Sprintf("%s/%s:mult=%d,extra=%v,sgd=%v", db, rp, mult, extra, sgd))
+				policies = append(policies, polKey{db, rp})
 				nG := rapid.IntRange(0, 6).Draw(t, "groups")
 				for gi := 0; gi < nG; gi++ {
 					// age in group widths relative to the retention limit: negative = younger than the limit
@@ -401,9 +433,19 @@ func TestPropDeletionCheck(t *testing.T) {
 							t.Fatalf("harness: %v", err)
 						}
 						pg.PreDeleted = true
+						// half of the tombstones are older than the tombstone lifetime (prunable)
+						if rapid.Bool().Draw(t, "tombstone-aged") {
+							pg.Aged = true
+							preAged[sg.ID] = true
+						}
 					}
 					plan = append(plan, pg)
 				}
+			}
+		}
+		if len(preAged) > 0 {
+			if _, err := ageTombstones(mc, preAged); err != nil {
+				t.Fatalf("harness: age tombstones: %v", err)
 			}
 		}
 		store := &recStore{present: map[uint64]bool{}, inUse: map[uint64]bool{}, deleted: map[uint64]int{}, blocked: map[uint64]int{}}
@@ -431,13 +473,26 @@ func TestPropDeletionCheck(t *testing.T) {
 		}
 
 		svc := newService(mc, store)
-		rounds := rapid.IntRange(1, 2).Draw(t, "rounds")
+		// history: 1..4 checks; between two checks "more than two weeks pass for the tombstones"
+		// with probability 1/2 (only DeletedAt is moved, see ageTombstones), so that a group
+		// expired by check k is pruned by check k+1 and later checks run on the pruned metadata
+		rounds := rapid.SampledFrom([]int{1, 2, 2, 3, 3, 4}).Draw(t, "rounds")
+		agedBetween := 0
 		t0 := time.Now()
 		svc.DeletionCheck(context.Background())
 		t1 := time.Now()
-		if rounds == 2 {
-			// in the second round nothing is in use any more
+		for r := 2; r <= rounds; r++ {
+			// from the second round on nothing is in use any more
 			store.inUse = map[uint64]bool{}
+			if rapid.Bool().Draw(t, "two-weeks-pass") {
+				k, err := ageTombstones(mc, nil)
+				if err != nil {
+					t.Fatalf("harness: age tombstones: %v", err)
+				}
+				if k > 0 {
+					agedBetween++
+				}
+			}
 			svc.DeletionCheck(context.Background())
 			t1 = time.Now()
 		}
@@ -450,9 +505,57 @@ func TestPropDeletionCheck(t *testing.T) {
 		caseJSON := func() map[string]any {
 			var ps []string
 			for _, p := range plan {
-				ps = append(ps, fmt.Sprintf("%s/%s group %d shards %v end=now%+v retention=%v predeleted=%v", p.DB, p.RP, p.ID, p.Shards, p.End.Sub(now).Round(time.Second), p.Dur, p.PreDeleted))
+				ps = append(ps, fmt.Sprintf("%s/%s group %d shards %v end=now%+v retention=%v predeleted=%v aged=%v", p.DB, p.RP, p.ID, p.Shards, p.End.Sub(now).Round(time.Second), p.Dur, p.PreDeleted, p.Aged))
 			}
-			return map[string]any{"plan": ps, "initially_present": fmt.Sprint(initiallyPresent), "initially_in_use": fmt.Sprint(initiallyInUse), "calls": store.calls, "rounds": rounds}
+			var ms []string
+			for _, pk := range policies {
+				if rpi, _ := after.RetentionPolicy(pk.db, pk.rp); rpi != nil {
+					var ids []string
+					for _, g := range rpi.ShardGroups {
+						ids = append(ids, fmt.Sprintf("%d(deleted=%v)", g.ID, g.Deleted()))
+					}
+					ms = append(ms, fmt.Sprintf("%s/%s: %v", pk.db, pk.rp, ids))
+				}
+			}
+			return map[string]any{"meta_after": ms, "tombstones_aged_between_rounds": agedBetween, "plan": ps, "initially_present": fmt.Sprint(initiallyPresent), "initially_in_use": fmt.Sprint(initiallyInUse), "calls": store.calls, "rounds": rounds}
+		}
+		// "no other shard [group] is touched": after the checks every policy lists only groups that
+		// were created in it, each at most once, with unchanged bounds; tombstones may have been pruned
+		planned := map[uint64]planGroup{}
+		for _, p := range plan {
+			planned[p.ID] = p
+		}
+		pruned, policiesWithGroups := 0, 0
+		for _, pk := range policies {
+			rpi, err := after.RetentionPolicy(pk.db, pk.rp)
+			if err != nil || rpi == nil {
+				rec.Fail(t, "TestPropDeletionCheck", "policy-lost", fmt.Sprintf("%s/%s is gone after DeletionCheck (%v)", pk.db, pk.rp, err), caseJSON())
+				continue
+			}
+			if len(rpi.ShardGroups) > 0 {
+				policiesWithGroups++
+			}
+			seen := map[uint64]bool{}
+			for _, g := range rpi.ShardGroups {
+				p, ok := planned[g.ID]
+				switch {
+				case !ok || p.DB != pk.db || p.RP != pk.rp:
+					rec.Fail(t, "TestPropDeletionCheck", "foreign-group-in-policy",
+						fmt.Sprintf("after DeletionCheck %s/%s lists shard group %d, which was created in %s/%s", pk.db, pk.rp, g.ID, p.DB, p.RP), caseJSON())
+				case seen[g.ID]:
+					rec.Fail(t, "TestPropDeletionCheck", "duplicate-group-in-policy",
+						fmt.Sprintf("after DeletionCheck %s/%s lists shard group %d twice", pk.db, pk.rp, g.ID), caseJSON())
+				case !g.EndTime.Equal(p.End):
+					rec.Fail(t, "TestPropDeletionCheck", "group-bounds-changed",
+						fmt.Sprintf("%s/%s group %d: end time changed from %s to %s", pk.db, pk.rp, g.ID, p.End, g.EndTime), caseJSON())
+				}
+				seen[g.ID] = true
+			}
+		}
+		for _, p := range plan {
+			if findGroup(&after, p.DB, p.RP, p.ID) == nil {
+				pruned++
+			}
 		}
 		allowed := map[uint64]bool{} // shards that may be removed
 		var nExp, nLive, nDel int
@@ -462,7 +565,11 @@ func TestPropDeletionCheck(t *testing.T) {
 			switch {
 			case p.PreDeleted:
 				nDel++
-				rec.Class("service:group=already-deleted")
+				if p.Aged {
+					rec.Class("service:group=already-deleted,tombstone-older-than-2-weeks")
+				} else {
+					rec.Class("service:group=already-deleted")
+				}
 				for _, s := range p.Shards {
 					allowed[s] = true
 				}
@@ -526,13 +633,25 @@ func TestPropDeletionCheck(t *testing.T) {
 		}
 		rec.Eval()
 		rec.Class(fmt.Sprintf("service:rounds=%d", rounds))
+		if agedBetween > 0 {
+			rec.Class("service:two-weeks-pass-between-checks")
+		}
+		if pruned > 0 {
+			rec.Class("service:tombstone-pruned")
+			if policiesWithGroups >= 2 {
+				rec.Class("service:tombstone-pruned,>=2-policies-keep-groups")
+			}
+			if nLive > 0 && len(policies) >= 2 {
+				rec.Class("service:tombstone-pruned,unexpired-groups-in-multi-policy-layout")
+			}
+		}
 		if nExp > 0 && nLive > 0 && nDel > 0 {
 			rec.Class("service:non-trivial")
 			var ps []string
 			for _, p := range plan {
-				ps = append(ps, fmt.Sprintf("%s/%s/%d/%v/%d/%v", p.DB, p.RP, p.ID, p.Shards, p.AgeSlots, p.PreDeleted))
+				ps = append(ps, fmt.Sprintf("%s/%s/%d/%v/%d/%v/%v", p.DB, p.RP, p.ID, p.Shards, p.AgeSlots, p.PreDeleted, p.Aged))
 			}
-			rec.NonTrivial("svc|" + strings.Join(canon, ";") + "|" + strings.Join(ps, ";") + "|" + fmt.Sprint(initiallyPresent, initiallyInUse, rounds))
+			rec.NonTrivial("svc|" + strings.Join(canon, ";") + "|" + strings.Join(ps, ";") + "|" + fmt.Sprint(initiallyPresent, initiallyInUse, rounds, agedBetween))
 		}
 	})
 	if stalls*10 > n {
